@@ -35,7 +35,7 @@ with concurrent.futures.ThreadPoolExecutor(max_workers=4) as ex:
         print('confirm', pid, m, 'OK' if ok else 'NOT CONFIRMED', c, flush=True)
         if not ok:
             continue
-        suffix = 'r6' + m[-1] + ('' if mutdir == '/tmp/mut6' else os.path.basename(mutdir)[-1])
+        suffix = ('r7' + m[-1]) if os.path.basename(mutdir) == 'mut7' else 'r6' + m[-1] + ('' if mutdir == '/tmp/mut6' else os.path.basename(mutdir)[-1])
         sid = '%s-%s' % (pid, suffix)
         dst = os.path.join(V, 'seeded', sid)
         os.makedirs(dst, exist_ok=True)
@@ -45,7 +45,7 @@ with concurrent.futures.ThreadPoolExecutor(max_workers=4) as ex:
         if os.path.exists(os.path.join(src, 'notes.md')):
             shutil.copy(os.path.join(src, 'notes.md'), os.path.join(dst, 'author_notes.md'))
         meta = {'id': sid, 'breaks_property': pid, 'summary': needs.get(sid, {}).get('summary', ''), 'needs_to_manifest': needs.get(sid, {}).get('needs', ''),
-                'written_by': 'independent sub-agent (sixth round: told every change already known for the property, asked for a DATA-DEPENDENT or HISTORY-DEPENDENT change), given only the property text and a scratch worktree',
+                'written_by': 'independent sub-agent (sixth / seventh round: told every change already known for the property, asked for a DATA-DEPENDENT or HISTORY-DEPENDENT change), given only the property text and a scratch worktree',
                 'confirmed_here': {'how': 'MUTDIR=%s tools/confirm_seeded.sh %s %s (scratch worktree of /repo HEAD, removed afterwards)' % (mutdir, pid, m),
                                    'patch_applies_to_repo_head': True, 'existing_suite_with_change': 'pass', 'demo_with_change': 'fails', 'demo_without_change': 'passes'},
                 'demo': 'demo.rs is an integration test: copy to /repo/tests/ and run cargo test --offline --test <name>',
